@@ -379,8 +379,10 @@ def _finish_hierarchical(ctx, rng, st, feats):
     objs = [hl]
     try:
         if n_top_free > 0:
+            bounded = rng.random() < 0.5
             prior = pints.ComposedLogPrior(*[
-                pints.GaussianLogPrior(0.3, 2.0)
+                pints.UniformLogPrior(-60.0, 60.0) if bounded
+                else pints.GaussianLogPrior(0.3, 2.0)
                 for _ in range(n_top_free)])
             objs.append(chi.HierarchicalLogPosterior(hl, prior))
     except Exception as e:      # noqa
@@ -433,6 +435,27 @@ def _finish_hierarchical(ctx, rng, st, feats):
             _bad(ctx, 'hierarchical_gradient_length',
                  {'shape': np.asarray(g).shape, 'n_parameters': n,
                   'ops': st.ops}, feats)
+        # points the object rejects (score -inf: a negative scale, a value
+        # outside a bounded prior) go through early returns of their own;
+        # the gradient reported there has the same length
+        for what, top in (('negative top level', -1.0),
+                          ('outside a bounded prior', 1e3)):
+            if n_top_free == 0:
+                break
+            xr = xv.copy()
+            xr[h.n_bottom:] = top
+            try:
+                sr, gr = obj.evaluateS1(xr)
+            except Exception:       # noqa
+                ctx.count('rejected_points_raising')
+                continue
+            ctx.count('gradient_lengths_checked_at_rejected_points')
+            if not np.isfinite(sr):
+                ctx.count('gradient_lengths_checked_at_score_minus_inf')
+            if np.asarray(gr).shape != (n,):
+                _bad(ctx, 'hierarchical_gradient_length',
+                     {'shape': np.asarray(gr).shape, 'n_parameters': n,
+                      'at': what, 'score': float(sr), 'ops': st.ops}, feats)
     # the likelihood works on its own copy of the population model: a
     # parameter of that copy is fixed through get_population_model() (the
     # only way to fix a population parameter of an existing likelihood)
@@ -943,6 +966,17 @@ def individual_case(ctx, rng, idx):
         # a vector of the reported length outside the support of an error
         # parameter (a proposal of a gradient-based sampler) is still
         # answered with a gradient of the reported length
+        try:
+            sn, gn = post.evaluateS1(-np.abs(np.array(x, dtype=float)) - 0.1)
+            ctx.count('gradient_lengths_checked_at_rejected_points')
+            if np.asarray(gn).shape != (len(want),):
+                _bad(ctx, 'individual_lengths',
+                     {'posterior gradient outside the prior support':
+                      np.asarray(gn).shape, 'expected': len(want),
+                      'ops': ops}, feats)
+                return
+        except Exception:           # noqa
+            ctx.count('rejected_points_raising')
         err_free = [i for i, n in enumerate(want)
                     if full.index(n) >= case.n_mech]
         if err_free:
@@ -1336,6 +1370,19 @@ def filter_posterior_case(ctx, rng, idx):
                  {'shape': np.shape(g), 'expected': n}, feats)
     except Exception as e:      # noqa
         ctx.violation_exc('evaluation_raises', e, {'case': feats}, feats)
+        return
+    # rejected points (every entry negative / far outside any bounded
+    # prior): the early returns report a gradient of the same length
+    for what, val in (('all negative', -1.0), ('all large', 1e6)):
+        try:
+            sr, gr = post.evaluateS1(np.full(n, val))
+        except Exception:           # noqa
+            ctx.count('rejected_points_raising')
+            continue
+        ctx.count('gradient_lengths_checked_at_rejected_points')
+        if np.shape(gr) != (n,):
+            _bad(ctx, 'gradient_length',
+                 {'shape': np.shape(gr), 'expected': n, 'at': what}, feats)
 
 
 def constructor_n_ids_case(ctx, rng, idx):
